@@ -5,7 +5,10 @@ import glob, json, os, subprocess, sys
 pid = sys.argv[1]
 tier = sys.argv[2] if len(sys.argv) > 2 else "quick"
 check = sys.argv[3] if len(sys.argv) > 3 else pid
+only = os.environ.get("SEEDS", "").split()
 for d in sorted(glob.glob("/verif/seeded/%s-*" % pid)):
+    if only and d.rsplit("-", 1)[1] not in only:
+        continue
     patch = d + "/patch.diff"
     assert subprocess.run("git -C /repo diff --quiet", shell=True).returncode == 0, "/repo dirty"
     r = subprocess.run("git -C /repo apply %s" % patch, shell=True, capture_output=True, text=True)
